@@ -111,7 +111,7 @@ def tohex (l : List Char) : String :=
 
 def errName : Err → String
   | .sep => "E_sep" | .conv => "E_conv" | .inv => "E_inv" | .ext => "E_ext" | .line => "E_line"
-  | .fuel => "E_fuel"
+  | .long => "E_long" | .fuel => "E_fuel"
 
 def b01 (b : Bool) : String := if b then "1" else "0"
 
